@@ -353,12 +353,15 @@ fn o17_1_active_limit_refuses_syn() {
 // ---- C18 ------------------------------------------------------------------------------------
 
 fn amplification_step(start_pending: bool, k: u8) {
-    let cfg = any_cfg();
+    // untracked address: configuration limits symbolic (the SYN under test explores every refusal);
+    // pending address: default configuration and a SYN compatible by construction, so that the entry exists on
+    // every path (the first SYN's own replies are the subject of the untracked shape)
+    let cfg = if start_pending { EndpointConfig::default() } else { any_cfg() };
     let mut s = mk_server(4, 4, cfg.clone());
     // potential: received - sent - 25 * (SYN-ACK resends still owed)
     let mut recv: usize = 0;
     if start_pending {
-        s.handle_frame(addr(A), frame::Frame::HandshakeSynFrame(ok_syn_for(&cfg)), 0);
+        s.handle_frame(addr(A), frame::Frame::HandshakeSynFrame(ok_syn()), 0);
         recv += 1472;
         assert!(class_of(&s, A) == 1);
     }
